@@ -8,8 +8,22 @@ A_SEP = "A-SEP: distinct caller-supplied objects do not alias; callers do not mu
 ENGINE = "pyvc VC generator (encoding of the Python subset, DESIGN 2.3) and z3 5.1 / cvc5 1.0 soundness"
 SPIDEV = "adafruit_bus_device.SPIDevice / digitalio.DigitalInOut: assumed to frame one CSN-low transaction per `with` block and to drive CE"
 
+NOT_APPLICABLE = {}
+
 PROPERTIES = {
+    "C08": {
+        "level_text": "The listen setter/getter, open_tx_pipe, open_rx_pipe, close_rx_pipe, auto_ack/set_auto_ack and address are proved, for all arguments and from every state satisfying Inv and J, to refine reference functions written from the docs/datasheet, to preserve Inv and J, and (listen) to satisfy the RX-entry postcondition (pipe 0 on the user's address or closed), the CE ordering clause (PRIM_RX never changed with CE high; CE high in RX) and (open_tx_pipe, TX mode, auto-ack on pipe 0) 'pipe 0 open on the TX address'. Inductive, so it covers every call sequence.",
+        "level_note": "Assumes A-HW, A-INT, A-SEP, A-CLK; SPI primitives inlined; 'send() to a listening peer succeeds' is reduced to the radio-side condition for receiving the ACK.",
+        "modules": ["spec.c08"],
+        "level": "proof",
+        "trusted_base": [ENGINE, A_HW, A_INT, A_SEP, SPIDEV, "SPI primitives inlined into each caller",
+                         "A-CLK: time.monotonic_ns() is non-decreasing"],
+        "assumptions": [A_HW, A_INT, A_SEP, SPIDEV, "A-CLK: time.monotonic_ns() is non-decreasing",
+                        "the clause 'send() to a listening peer succeeds' is reduced to 'pipe 0 is open on the TX address' (what the radio needs to receive the ACK per A-HW); the over-the-air step is not modelled"],
+    },
     "C03": {
+        "level_text": "Every configuration entry point of RF24 is proved, for all argument values and from every state satisfying the shadow/register invariant Inv, to end in exactly the abstract state of a reference function written from the docs and the register map (all shadows, whole register file, FIFOs, CE, no reserved write), to return the same value, raise the same exception type and re-establish Inv; by induction this covers every call sequence.",
+        "level_note": "Assumes A-HW (spec/hw.py register semantics), A-INT, A-SEP; SPI primitives inlined; list arguments covered for lengths 0..8 only; non-plus carrier-wave path outside the claim.",
         "modules": ["spec.c03"],
         "level": "proof",
         "trusted_base": [ENGINE, A_HW, A_INT, A_SEP, SPIDEV,
